@@ -209,6 +209,10 @@ func DefaultIntrinsics() map[string]Intrinsic {
 		}
 		return string(out)
 	}
+	m[rtPkg+".PreemptAtSync"] = func(fr *frame, args []value) value {
+		fr.i.ps.sched.preemptAtSync = true
+		return nil
+	}
 	m[rtPkg+".Sync"] =func(fr *frame, args []value) value { return nil }
 	m[rtPkg+".WaitAll"] =func(fr *frame, args []value) value {
 		s := fr.i.ps.sched
@@ -284,15 +288,21 @@ func DefaultIntrinsics() map[string]Intrinsic {
 	}{{"Int32", types.Int32}, {"Int64", types.Int64}, {"Uint32", types.Uint32}, {"Uint64", types.Uint64}, {"Uintptr", types.Uintptr}} {
 		kind := w.kind
 		m["sync/atomic.Load"+w.suffix] = func(fr *frame, args []value) value { return *args[0].(*value) }
-		m["sync/atomic.Store"+w.suffix] = func(fr *frame, args []value) value { *args[0].(*value) = args[1]; return nil }
+		m["sync/atomic.Store"+w.suffix] = func(fr *frame, args []value) value {
+			fr.i.noteWrite(args[0].(*value))
+			*args[0].(*value) = args[1]
+			return nil
+		}
 		m["sync/atomic.Add"+w.suffix] = func(fr *frame, args []value) value {
 			p := args[0].(*value)
+			fr.i.noteWrite(p)
 			*p = fr.i.binopTok("+", *p, args[1])
 			return *p
 		}
 		m["sync/atomic.Swap"+w.suffix] = func(fr *frame, args []value) value {
 			p := args[0].(*value)
 			old := *p
+			fr.i.noteWrite(p)
 			*p = args[1]
 			return old
 		}
@@ -307,6 +317,7 @@ func DefaultIntrinsics() map[string]Intrinsic {
 				ok = fr.i.branch(e.t, "CAS")
 			}
 			if ok {
+				fr.i.noteWrite(p)
 				*p = args[2]
 			}
 			return ok
@@ -320,6 +331,7 @@ func DefaultIntrinsics() map[string]Intrinsic {
 		if args[1].(bool) {
 			v = 1
 		}
+		fr.i.noteWrite(&(*args[0].(*value)).(structure)[1])
 		(*args[0].(*value)).(structure)[1] = v
 		return nil
 	}
